@@ -196,7 +196,7 @@ func managedTxnShape(r *Repo, fd *ast.FuncDecl) managedShape {
 }
 
 func genRecovery(r *Repo) (string, error) {
-	hc, rec, fx := r.Files["http_consts.go"], r.Files["recovery.go"], r.Files["fox.go"]
+	hc, rec, fx := r.File("http_consts.go"), r.File("recovery.go"), r.File("fox.go")
 	if hc == nil || rec == nil || fx == nil {
 		return "", fmt.Errorf("http_consts.go / recovery.go / fox.go missing")
 	}
@@ -277,7 +277,7 @@ func genRecovery(r *Repo) (string, error) {
 	// how a header name is compared with the redaction list: every use of blacklistedHeader in recovery.go (in
 	// recovery() itself or in a helper it was moved to) must compare the same way
 	modes := map[int]bool{}
-	if rf := r.Files["recovery.go"]; rf != nil {
+	if rf := r.File("recovery.go"); rf != nil {
 		ast.Inspect(rf, func(n ast.Node) bool {
 			x, ok := n.(*ast.CallExpr)
 			if !ok {
